@@ -43,3 +43,28 @@ Proof.
   split; [vm_compute; reflexivity|]. intros i Hi.
   destruct i as [|[|[|i]]]; try lia; vm_compute; reflexivity.
 Qed.
+
+(* ---- about the regenerated create_choice_segments (Gen/ChoiceSegments.v) ------------------------- *)
+From LCM Require Import Gen.ChoiceSegments Proofs.C08_ChoiceSegments.
+(* rows = for every agent the booleans "this sparse-choice combination passes the filters" (k each): *)
+(* the segment ids list every agent as often as it has passing combinations, in agent order (so a row's  *)
+(* segment is its agent), and the number of segments is the number of agents with a passing combination  *)
+(* -- equal to the number of agents exactly when every agent has one                                       *)
+Theorem C08_code_segments_are_grouped_by_agent : forall (rows : list (list bool)) (k : nat),
+  (forall r, In r rows -> length r = k) -> 0 < k -> rows <> [] ->
+  fst (create_choice_segments (concat rows) (length rows))
+  = flat_map (fun ir : nat * list bool => repeat (fst ir) (count_true (snd ir))) (combine (seq 0 (length rows)) rows) /\
+  snd (create_choice_segments (concat rows) (length rows))
+  = length (filter (fun r => negb (count_true r =? 0)) rows).
+Proof.
+  intros rows k H1 H2 H3. split;
+    [exact (segments_are_grouped_by_agent rows k H1 H2 H3)|exact (num_segments_is_number_of_agents_with_a_passing_combination rows k H1 H2 H3)].
+Qed.
+Print Assumptions C08_code_segments_are_grouped_by_agent.
+
+Theorem C08_code_every_agent_keeps_a_segment : forall (rows : list (list bool)) (k : nat),
+  (forall r, In r rows -> length r = k) -> 0 < k -> rows <> [] ->
+  (forall r, In r rows -> count_true r <> 0) ->
+  snd (create_choice_segments (concat rows) (length rows)) = length rows.
+Proof. exact every_agent_keeps_a_segment_iff_every_agent_has_a_choice. Qed.
+Print Assumptions C08_code_every_agent_keeps_a_segment.
